@@ -461,8 +461,12 @@ theorem root_createFile_safe (env : Env) (root : Root) (path : Bytes) (flags per
     (hr : 0 ≤ root.fd) (hp : 0 ≤ env.proc.fd) :
     Safe (Disc b) (Root.createFile env root path flags perm) FdOk := by
   unfold Root.createFile
-  exact withParent_safe env root path hr hp (fun dir name => Sys.openat dir name (flags ||| O_CREAT) perm) _
-    FdOk_err (fun dir name hd hn => openat_safe dir name _ _ hd hn)
+  refine withParent_safe env root path hr hp (fun dir name => Root.createFileOpen dir name flags perm) _
+    FdOk_err (fun dir name hd hn => ?_)
+  unfold Root.createFileOpen
+  split
+  · exact FdOk_err _
+  · exact openat_safe dir name _ _ hd hn
 
 theorem root_removeInode_safe (env : Env) (root : Root) (path : Bytes) (isDir : Bool)
     (hr : 0 ≤ root.fd) (hp : 0 ≤ env.proc.fd) :
